@@ -651,10 +651,57 @@ func ruleDepositPop(c *Ctx) {
 		}
 		return true
 	})
+	// steps that moved into unexported helpers of the package (reached from ProcessDeposit): performed, but not read here
+	inHelpers := map[string]string{}
+	{
+		seen := map[*types.Func]bool{}
+		var visit func(body *ast.BlockStmt, depth int)
+		visit = func(body *ast.BlockStmt, depth int) {
+			if body == nil || depth > 3 {
+				return
+			}
+			ast.Inspect(body, func(n ast.Node) bool {
+				call, ok := n.(*ast.CallExpr)
+				if !ok {
+					return true
+				}
+				f := calleeFunc(info, call)
+				if f == nil {
+					return true
+				}
+				if depth > 0 {
+					switch {
+					case f.Name() == "Pubkey" && strings.Contains(qualName(f), "BLSPubkey"):
+						inHelpers["pubkey-decode"] = "helper"
+					case f.Name() == "Signature" && strings.Contains(qualName(f), "BLSSignature"):
+						inHelpers["signature-decode"] = "helper"
+					case f.Name() == "Verify" && f.Pkg() != nil && f.Pkg().Name() == "blsu":
+						inHelpers["pop-verify"] = "helper"
+					}
+				}
+				if f.Pkg() == pk.Types && !f.Exported() && !seen[f] {
+					seen[f] = true
+					if hd := declOfFunc(pk, f); hd != nil {
+						visit(hd.Body, depth+1)
+					}
+				}
+				return true
+			})
+		}
+		visit(fd.Body, 0)
+	}
+	var moved []string
 	for _, st := range []string{"pubkey-decode", "signature-decode", "pop-verify"} {
 		if !found[st] {
+			if inHelpers[st] != "" {
+				moved = append(moved, st)
+				continue
+			}
 			c.bad("ProcessDeposit."+st, fd.Pos(), "ProcessDeposit no longer performs the %s step", st)
 		}
+	}
+	if len(moved) > 0 {
+		c.unm("ProcessDeposit.steps-in-helper", fd.Pos(), "the %s step(s) are performed in an unexported helper of the package: what a failure of theirs leads to in ProcessDeposit is not read by this rule", strings.Join(moved, ", "))
 	}
 }
 
